@@ -122,6 +122,17 @@ pub fn run(run: Run) -> ! {
                 acc.timelines += 2;
                 let rank = rank | ti as u64;
                 for (tlx, st) in [(&tl, None), (&tls, Some(&vs))] {
+                    // the same timeline wrapped in a MergedTimeline must behave identically
+                    let wrapped: MergedTimeline<PTimeline> = MergedTimeline::from(tlx.clone());
+                    for &t in grids[ti].0.iter().chain(grids[ti].1.iter()) {
+                        let mut w = init.clone();
+                        wrapped.update(&mut w, t);
+                        let g = eval_real(tlx, t, &init);
+                        acc.evals += 1;
+                        if w.bits() != g.bits() {
+                            acc.sink.add("wrapped-in-merged-timeline-differs", rank, || (format!("t={t}: MergedTimeline::from(timeline) gives {:?}, the timeline itself {:?}", w, g), case_json(&spec, st, t, &init)));
+                        }
+                    }
                     for &t in &grids[ti].0 {
                         check_eval(&spec, &rt, tlx, st, t, &init, rank, acc);
                     }
@@ -172,7 +183,7 @@ pub fn run(run: Run) -> ! {
     cov.insert("traces_validated_against_impl".into(), json!(acc.evals));
     cov.insert("evaluations".into(), json!(acc.evals));
     cov.insert("distinct_nontrivial".into(), json!(acc.exact_checks));
-    cov.insert("rule".into(), json!(format!("keyframe lists of size 0..={nmax} with per-property distinct positions (same alphabet as C01, incl. the variant with the f64 property d in place of a below the largest size) x 13 dyadic timing configurations (incl. Times 0/1/2/3, Infinite, reverse) x {{no start, start_with(v*)}} x exact-hit times delay+cycle*(c+p) / reversing delay+cycle*(c+p/2), delay+cycle*(c+1-p/2) for all grid positions p and cycles c<=3, t in {{0,delay/2,delay}}, every forward-pass end, and 6 after-end times (next f32 after total .. f32::MAX); non-trivial = (evaluation, property) whose position coincides with exactly one keyframe of that property, compared exactly (int) / within 4 ulp (float)")));
+    cov.insert("rule".into(), json!(format!("keyframe lists of size 0..={nmax} with per-property distinct positions (same alphabet as C01, incl. the variant with the f64 property d in place of a below the largest size) x 13 dyadic timing configurations (incl. Times 0/1/2/3, Infinite, reverse) x {{no start, start_with(v*)}} x exact-hit times delay+cycle*(c+p) / reversing delay+cycle*(c+p/2), delay+cycle*(c+1-p/2) for all grid positions p and cycles c<=3, t in {{0,delay/2,delay}}, every forward-pass end, and 6 after-end times (next f32 after total .. f32::MAX); every timeline is additionally evaluated wrapped in MergedTimeline::from (bit-equal); non-trivial = (evaluation, property) whose position coincides with exactly one keyframe of that property, compared exactly (int) / within 4 ulp (float)")));
     cov.insert("exhaustive".into(), json!(true));
     cov.insert("max_keyframes".into(), json!(nmax));
     cov.insert("after_end_constancy_groups".into(), json!(acc.after_end_groups));
